@@ -8,6 +8,8 @@
 #if INOVESA_USE_HDF5 == 1
 #include "IO/HDF5File.hpp"
 
+#include <stdexcept>
+
 #include "HelperFunctions.hpp"
 
 namespace vfps {
@@ -458,7 +460,13 @@ vfps::HDF5File::readPhaseSpace( std::string fname
 
     std::vector<hsize_t> ps_offset;
     std::vector<hsize_t> ps_ext;
-    use_step = (ps_dims[0]+use_step)%ps_dims[0];
+    const int64_t ps_records = static_cast<int64_t>(ps_dims[0]);
+    if (use_step >= ps_records || use_step < -ps_records) {
+        throw std::out_of_range("there is no phase space record "
+                                + std::to_string(use_step) + " (the file holds "
+                                + std::to_string(ps_records) + ")");
+    }
+    use_step = (ps_records+use_step)%ps_records;
     meshindex_t ps_size;
     uint32_t nBunches = 1U;
     switch (rank) {
